@@ -829,3 +829,42 @@ Proof.
   apply (double_of_structure 32768 far_err 32 (N.to_nat 32766) 16); [vm_compute; reflexivity|].
   apply bits_eqb_eq. vm_compute. reflexivity.
 Qed.
+
+(* ------------------------------------------------------------------ *)
+(* 11. the executable check run by the correspondence is an instance of the receiver of section 9 *)
+
+Lemma receiver_frame_check_rejects m e t :
+  is_bytes m -> is_bytes e ->
+  crc_flag_of_header m = true ->
+  frame_len_of_header m = Some (length m + 2)%nat ->
+  length e = length (m ++ crc_bytes m) ->
+  fixed_header_untouched e ->
+  crc16_detectable e ->
+  receiver_frame_check (xor_bytes (m ++ crc_bytes m) e ++ t) = false.
+Proof.
+  intros Hm He Hf Hlen Hl Hfix Hdet.
+  pose (dec := fun b : list N => if receiver_frame_check b then Some tt else None).
+  assert (H : dec (xor_bytes (m ++ crc_bytes m) e ++ t) = None).
+  { apply (corrupt_rejected unit dec); try assumption.
+    intros b p Hd Hflag. unfold dec, receiver_frame_check in Hd. rewrite Hflag in Hd.
+    destruct (frame_span b) as [f|]; [|discriminate Hd].
+    destruct (crc_frame_ok f) eqn:E; [|discriminate Hd]. exists f. split; [reflexivity | exact E]. }
+  unfold dec in H. destruct (receiver_frame_check _); [discriminate H | reflexivity].
+Qed.
+
+Lemma receiver_frame_check_clean m t :
+  crc_flag_of_header m = true ->
+  frame_len_of_header m = Some (length m + 2)%nat ->
+  receiver_frame_check ((m ++ crc_bytes m) ++ t) = true /\
+  receiver_consumed ((m ++ crc_bytes m) ++ t) = Some (length m + 2)%nat.
+Proof.
+  intros Hf Hlen.
+  assert (H4 : firstn 4 ((m ++ crc_bytes m) ++ t) = firstn 4 m).
+  { destruct m as [|b0 [|b1 [|b2 [|b3 m']]]]; try discriminate Hlen. reflexivity. }
+  assert (Hl : length (m ++ crc_bytes m) = (length m + 2)%nat) by (rewrite app_length; reflexivity).
+  unfold receiver_frame_check, receiver_consumed, frame_span.
+  rewrite (crc_flag_same_header _ m H4), (frame_len_same_header _ m H4), Hlen, Hf.
+  destruct (Nat.leb_spec (length m + 2) (length ((m ++ crc_bytes m) ++ t))) as [L|L].
+  - rewrite <- Hl, firstn_app_exact. split; [apply crc_frame_clean | reflexivity].
+  - rewrite app_length in L. lia.
+Qed.
